@@ -22,6 +22,8 @@ use std::time::Duration;
 const SEL: &str = client::Q_PREPARED_SELECT;
 const INS: &str = client::Q_PREPARED_INSERT;
 const UPD: &str = client::Q_PREPARED_UPDATE;
+/// A conditional insert: prepared WITHOUT result columns, answered with one "[applied]" row.
+const LWT: &str = "INSERT INTO ks1.t1 (pk, m) VALUES (?, ?) IF NOT EXISTS";
 /// Marker flag of paged executions: the SELECT yields 3 rows, read with page size 1.
 const F_PAGED: u64 = 4;
 
@@ -283,6 +285,18 @@ pub fn run(req: &RunRequest) -> Value {
             cluster.add_node("dc1", "r1", 0, vec![(i as i64) * 1000 - 2500]);
         }
         client::standard_catalog(&mut cluster, Strategy::Simple(plan.nodes.min(3)), false);
+        cluster.catalog.push(StmtDef {
+            shape: LWT.into(),
+            ks: "ks1".into(),
+            table: "t1".into(),
+            kind: crate::cluster::StmtKind::Lwt,
+            bind_cols: vec![col("ks1", "t1", "pk", CType::BigInt), col("ks1", "t1", "m", CType::BigInt)],
+            pk_indexes: vec![0],
+            result_cols: vec![col("ks1", "t1", "[applied]", CType::Boolean)],
+            marker_bind: Some(1),
+            schema_version: 0,
+            id_version: 0,
+        });
         cluster.features.metadata_id_ext = plan.md_ext;
         cluster.features.metadata_despite_skip_permille = [0, 250][tape::choose("c14:md_despite_skip", 2) as usize];
         cluster.think_min = 0;
@@ -342,6 +356,13 @@ async fn main(plan: Plan) -> Outcome {
         return out;
     };
     let upd = Arc::new(upd);
+    let lwt = match session.prepare(LWT).await {
+        Ok(mut p) => {
+            p.set_use_cached_result_metadata(plan.use_cached);
+            Some(Arc::new(p))
+        }
+        Err(_) => None,
+    };
     // In caching runs every execution goes through a CachingSession whose cache is
     // warmed here (its preparations are the callers' own, before the workload starts).
     let caching: Option<Arc<scylla::client::caching_session::CachingSession>> = if plan.caching {
@@ -480,7 +501,8 @@ async fn main(plan: Plan) -> Outcome {
         let caching = caching.clone();
         let per = plan.per_caller;
         let gaps: Vec<u64> = (0..per).map(|_| tape::range("c14:gap", 0, 60) * MS).collect();
-        let kinds: Vec<u8> = (0..per).map(|_| tape::weighted("c14:kind", &[5, 2, 2, 2, 1]) as u8).collect();
+        let kinds: Vec<u8> = (0..per).map(|_| tape::weighted("c14:kind", &[5, 2, 2, 2, 1, 2]) as u8).collect();
+        let lwt = lwt.clone();
         let use_cached = plan.use_cached;
         handles.push(tokio::spawn(async move {
             let mut obs = Vec::new();
@@ -505,6 +527,15 @@ async fn main(plan: Plan) -> Outcome {
                     }
                     Ok(rows)
                 };
+                if kind == 5 {
+                    // The conditional insert: its "[applied]" row must be decoded although
+                    // the statement was prepared without result columns.
+                    if let Some(p) = &lwt {
+                        let r = session.execute_unpaged(p, (k as i64, m as i64)).await.map_err(|e| client::short_err(&e)).and_then(decode);
+                        obs.push(Obs { marker: m, t_invoke, t_done: world::now_ns(), kind, result: r });
+                    }
+                    continue;
+                }
                 if kind == 4 {
                     if let Ok(mut p) = session.prepare(SEL).await {
                         p.set_is_idempotent(true);
@@ -786,8 +817,22 @@ async fn main(plan: Plan) -> Outcome {
     }
     // (c) rows decoded under the right metadata.
     let mut rows_checked = 0u64;
+    let mut lwt_checked = 0u64;
     let mut undetectable = 0u64;
     for o in &obs {
+        if o.kind == 5 {
+            if let Ok(rows) = &o.result {
+                let want = vec![vec![("[applied]".to_string(), Some(CqlValue::Boolean(o.marker & 1 == 1)))]];
+                if *rows != want {
+                    out.violation(
+                        "c14.rows_decoded_wrongly",
+                        format!("marker {}: the conditional insert (prepared without result columns) was answered with one [applied] row but the caller decoded {:?}", o.marker, rows),
+                    );
+                }
+                lwt_checked += 1;
+            }
+            continue;
+        }
         if o.kind != 0 && o.kind != 3 {
             continue;
         }
@@ -930,6 +975,7 @@ async fn main(plan: Plan) -> Outcome {
     out.count("reexecutions_checked", reexecuted);
     out.count("reexecution_metadata_id_checked", reexec_md_checked);
     out.count("rows_checked", rows_checked);
+    out.count("conditional_insert_rows_checked", lwt_checked);
     out.count("undetectable_schema_change_skipped", undetectable);
     out.count("schema_versions", versions.len() as u64);
     out.sample = json!({
